@@ -59,7 +59,9 @@ def strategy(ctx):
                          pools=(HELPERLIKE,))
     adv2 = S.circuit_spec(min_inputs=2, max_inputs=5, min_gates=2, max_gates=8, max_fanin=5, io_outputs=True, min_fanin_nary=2,
                           pools=(list(S.COMPOUND) + ["N1", "N10", "N11", "N13", "N17", "N19", "d", "dA", "a_0", "a0", "N1_X", "d_X"],))
-    return st.builds(lambda s: {"spec": s}, st.one_of(plain, plain, adv, adv2, _twins(adv2)))
+    rel = S.related_names_pool().flatmap(lambda pool: S.circuit_spec(min_inputs=2, max_inputs=5, min_gates=2, max_gates=8, max_fanin=4,
+                                                                     io_outputs=True, pools=(pool,)))
+    return st.builds(lambda s: {"spec": s}, st.one_of(plain, plain, adv, adv2, _twins(adv2), rel))
 
 
 TW = [(["a_b", "c"], ["a", "b_c"]), (["a", "b", "c"], ["a_b", "c"]), (["a", "b", "c"], ["a", "b_c"]), (["a_b_c", "a"], ["a_b", "c_a"]),
